@@ -228,6 +228,7 @@ pub fn worker_main(a: WorkerArgs) -> i32 {
             if let Some(h) = st.nontrivial {
                 g.nontrivial.insert(h);
             }
+            let had_many = !st.nontrivial_many.is_empty();
             for h in st.nontrivial_many.drain(..) {
                 g.nontrivial.insert(h);
             }
@@ -251,7 +252,7 @@ pub fn worker_main(a: WorkerArgs) -> i32 {
             if i < a.trace_first {
                 g.rep.trace_hashes.push((scenario.to_string(), i, st.trace_hash));
             }
-            if g.rep.samples.len() < 2 && st.nontrivial.is_some() && a.start == 0 {
+            if a.start == 0 && (g.rep.samples.is_empty() || (g.rep.samples.len() < 3 && (st.nontrivial.is_some() || had_many))) {
                 g.rep.samples.push(checks::sample_view(scenario, &case));
             }
             for vi in vs {
